@@ -124,6 +124,8 @@ def inprocess(out, cases, findings, stats):
     rc, model, err = vlib.run_lines(drv, lines)
     if rc != 0 or len(model) != len(lines):
         raise RuntimeError("select model driver failed rc=%s %d/%d %s" % (rc, len(model), len(lines), err[-400:]))
+    # second model variant: the repaired selection (roots of the property's reading, C12_repaired_selection_is_closure)
+    _, spec, _ = vlib.run_lines(drv, ["selectspec\t%s\t%s" % (sl.enc_nodes(nd), sl.enc_cfg(cf)) for nd, cf in cases])
     try:
         h = vlib.build_harness("select")
     except vlib.HarnessUnavailable as e:
@@ -140,9 +142,25 @@ def inprocess(out, cases, findings, stats):
     viol = 0
     for k, (nodes, cfg) in enumerate(cases):
         a_sel, a_list = impl[2 * k], impl[2 * k + 1]
-        if a_sel != model[2 * k] or a_list != model[2 * k + 1]:
-            mism.append(k)
         got = parse_sel(a_sel)
+        if a_sel == model[2 * k] and a_list == model[2 * k + 1]:
+            if model[2 * k].split("\t")[:2] != spec[k].split("\t")[:2]:
+                stats["variant_code_roots"] = stats.get("variant_code_roots", 0) + 1
+        else:
+            # the code follows ONE of the two variants: compare with the repaired one on the error class / selected targets
+            def tproj(x):
+                return x[0] if x[0] != "sel" else frozenset(i for i in x[1] if nodes[i]["kind"] == "t")
+            ms = spec[k].split("\t")
+            sp = ("sel", set(sl.idxs(ms[1]))) if ms[0] == "sel" else (ms[0],)
+            byp = set(sl.ref_roots(nodes, cfg)[1])
+            ml, il = model[2 * k + 1].split("\t"), a_list.split("\t")
+            mlist = set(sl.idxs(ml[1])) if len(ml) > 1 else set()
+            ilist = set(sl.idxs(il[1])) if il[0] == "list" and len(il) > 1 else None
+            list_ok = ilist is not None and ilist <= mlist and (mlist - ilist) <= byp
+            if got[0] in ("sel", "platform-error") and tproj(got) == tproj(sp) and list_ok:
+                stats["variant_repaired"] = stats.get("variant_repaired", 0) + 1
+            else:
+                mism.append(k)
         verdict, text, extra = judge(nodes, cfg, got, findings)
         stats[got[0]] = stats.get(got[0], 0) + 1
         if got[0] == "sel" and 0 < len(got[1]) < len(nodes):
